@@ -220,7 +220,7 @@ def run_shard(spec, acc, ctx):
         for kl in KEY_LENGTHS:
             ske = cls(key_length=kl)
             key, m = rng.randbytes(kl), rng.randbytes(rng.choice([0, 5, 16, 40]))
-            n = 20000
+            n = 70000 if kl == 16 else 20000      # past 2^16 once: a counter-based IV source must not wrap
             seen = set()
             for _ in range(n):
                 seen.add(ske.Encrypt(key, m))
